@@ -1,6 +1,6 @@
 """Source of MANIFEST.json (run ./tools_manifest.py after editing)."""
 
-FIX_COMMITS = ['aa8a796', 'e19c32a', '9330350', '8599158', '33efd15', '1cc24ab', '668079e', 'f34decb', 'f0c9eb4', 'f63685a', 'f41aea7', '4c9fae6', '89fa7aa', '44add83', '3e6a5c9', '24d79b7', '9b58b2c', '783304e', 'f6c2ece', '8bd765a', 'debc858', '096bb2b', '9bcdd72', 'af4b9f6', 'cef733f', 'a117c80', 'b164430', '2fdc9c3', '1f4ac19', '0565888', '7625e32', '6c98e8e', '87aecdb']
+FIX_COMMITS = ['aa8a796', 'e19c32a', '9330350', '8599158', '33efd15', '1cc24ab', '668079e', 'f34decb', 'f0c9eb4', 'f63685a', 'f41aea7', '4c9fae6', '89fa7aa', '44add83', '3e6a5c9', '24d79b7', '9b58b2c', '783304e', 'f6c2ece', '8bd765a', 'debc858', '096bb2b', '9bcdd72', 'af4b9f6', 'cef733f', 'a117c80', 'b164430', '2fdc9c3', '1f4ac19', '0565888', '7625e32', '6c98e8e', '87aecdb', 'b9b504c', 'ea08a4e']
 
 _ALL = ['C%02d' % i for i in range(1, 21)]
 
@@ -265,6 +265,24 @@ CHECKS.append(dict(
     note='Crash points at Python granularity inside the saving code (module-level open / os.replace wrapped from the harness, no '
          'source hook); power-loss semantics below write(2) are not modelled. Three defects found were repaired (fix: commits).',
     technique='property-based testing (Hypothesis) of evaluation histories against a best-so-far model + exhaustive fault injection at every step of every save',
+))
+
+CHECKS.append(dict(
+    id='C12',
+    text='Fault planting: a valid random formula (C01 grammar) gets ONE fault (unknown column, draw outside MonteCarlo, integration '
+         'variable outside Integrate, second derivatives without first) at a generated leaf position under any operator kind and is '
+         'sent through BIOGEME(...), get_value_c and get_value_and_derivatives: it must be refused with BiogemeError naming the '
+         'element, while its un-faulted twin is accepted with the reference values. Structural faults (choice value without '
+         'utility, utility/availability key mismatch, overlapping nests, nest member outside the choice set for nested and '
+         'cross-nested models in object and tuple syntax, non-numeric column, NaN cell, empty table, variable outside the trajectory '
+         'on panel data) must be refused likewise. Missing-data code (default and declared) planted in a cell the formula '
+         'certainly reads on that row must make the evaluation fail; planted in unreferenced columns or branches not taken it must '
+         'be harmless and leave the reference values.',
+    note='Read/unread analysis by a lazy tracer over the reference semantics (operands that short-circuiting may skip are never '
+         'used for planting); NaN in the failing row of simulate counts as refusal; variables outside the trajectory are planted '
+         'through BIOGEME only (row-wise get_value_c on panel data is used by the library itself). Two defects repaired, one known '
+         'finding (logit audit reads choice/availability columns on every row).',
+    technique='property-based testing (Hypothesis) with fault injection into generated valid specifications: refusal oracle (error type + message) and valid-twin acceptance',
 ))
 
 _claimed = {c['id'] for c in CHECKS}
